@@ -66,4 +66,56 @@ theorem noFail_runFrom (cfg : Cfg α) (ops : List (Op α)) {s : State α} (hq : 
   | nil => exact h
   | cons op ops ih => exact ih (hq.step cfg op) (h.step cfg hq op)
 
+/-! ### The timed layer -/
+
+/-- A timed step is one or two untimed steps. -/
+theorem tstep_eq_steps (cfg : Cfg α) (T : Nat) (s : State α) (top : TOp α) :
+    ∃ ops : List (Op α), tstep cfg T s top = runFrom cfg s ops := by
+  cases top with
+  | base op => exact ⟨[op], rfl⟩
+  | writePacket c d =>
+    by_cases h : d ≤ T
+    · exact ⟨[.deliverPacket c], by simp [tstep, h, runFrom, RelayRegistry.step]⟩
+    · exact ⟨[.deliverPacket c, .actorExit c], by simp [tstep, h, runFrom, RelayRegistry.step]⟩
+  | writeMsg c d =>
+    by_cases h : d ≤ T
+    · exact ⟨[.deliverMsg c], by simp [tstep, h, runFrom, RelayRegistry.step]⟩
+    · exact ⟨[.deliverMsg c, .actorExit c], by simp [tstep, h, runFrom, RelayRegistry.step]⟩
+
+/-- Every timed history is an untimed history: all untimed theorems apply to timed runs. -/
+theorem trunFrom_eq_runFrom (cfg : Cfg α) (T : Nat) (tops : List (TOp α)) (s : State α) :
+    ∃ ops : List (Op α), trunFrom cfg T s tops = runFrom cfg s ops := by
+  induction tops generalizing s with
+  | nil => exact ⟨[], rfl⟩
+  | cons top tops ih =>
+    obtain ⟨o1, h1⟩ := tstep_eq_steps cfg T s top
+    obtain ⟨o2, h2⟩ := ih (tstep cfg T s top)
+    refine ⟨o1 ++ o2, ?_⟩
+    rw [runFrom_append, ← h1]
+    exact h2
+
+theorem qInv_trun (cfg : Cfg α) (T : Nat) (tops : List (TOp α)) : QInv cfg (trun cfg T tops) := by
+  obtain ⟨ops, h⟩ := trunFrom_eq_runFrom cfg T tops RelayRegistry.init
+  unfold trun
+  rw [h]
+  exact qInv_run cfg ops
+
+/-- A delivery step of `c'` leaves every other record alone. -/
+theorem deliverPacket_other (cfg : Cfg α) (s : State α) (c' c : Cid) (h : c ≠ c') :
+    (deliverPacket cfg s c').conns c = s.conns c := by
+  unfold RelayRegistry.deliverPacket
+  repeat' split
+  all_goals first | rfl | simp [h]
+
+theorem deliverMsg_other (s : State α) (c' c : Cid) (h : c ≠ c') : (deliverMsg s c').conns c = s.conns c := by
+  unfold RelayRegistry.deliverMsg
+  repeat' split
+  all_goals first | rfl | simp [h]
+
+theorem actorExit_other (s : State α) (c' c : Cid) (h : c ≠ c') : (actorExit s c').conns c = s.conns c := by
+  unfold RelayRegistry.actorExit
+  split
+  · rfl
+  · simp [h]
+
 end IrohModel.C05
